@@ -151,8 +151,12 @@ P2P_RegisterFrom(s, now, i) ==
           ELSE LET pi == s.pending_local[h]
                    r  == SL_AddLocalInput(s.sl, h, pi.frame, pi.val)
                    s1 == [s EXCEPT !.sl = r[1]]
+                   \* (repaired behaviour) blank frames in front of a delayed first input are queued too
+                   RECURSIVE Blanks(_, _)
+                   Blanks(x, f) == IF f >= r[2] THEN x ELSE Blanks(P2P_QueueOutgoing(x, h, f, Default), f + 1)
+                   s1b == IF SendLeadingBlanks /\ r[2] # NullFrame /\ s1.status[h].last = NullFrame THEN Blanks(s1, 0) ELSE s1
                    s2 == IF r[2] # NullFrame
-                         THEN P2P_QueueOutgoing([s1 EXCEPT !.status[h].last = r[2]], h, r[2], pi.val)
+                         THEN P2P_QueueOutgoing([s1b EXCEPT !.status[h].last = r[2]], h, r[2], pi.val)
                          ELSE s1
                IN P2P_RegisterFrom(s2, now, i + 1)
 
